@@ -68,3 +68,47 @@ Example C16_less_is_translation_nonvacuous :
   N.of_nat (length dl) < 9223372036854775808 /\ nth_error dl 0 = Some (mkDriver 1 (-128) None) /\
   (-128 <= d_order (mkDriver 1 (-128) None) <= 127)%Z.
 Proof. vm_compute. repeat split; discriminate || reflexivity. Qed.
+
+(** audit: C16_link_is_translation with ALL hypotheses at a boot-like state: "hi" was logged into the early ring
+    buffer before any device existed, then terminal 5 and console 7 became active.  The model's link returns Ok, the
+    io.Copy contract delivers the buffered text to the terminal, and the theorem's conclusion holds there *)
+Definition st_boot : hal :=
+  set_console (set_tty (match run_logop (LStr [104; 105]) init_hal with Ok s => s | _ => init_hal end) (Some 5)) (Some 7).
+Example C16_link_is_translation_real_input :
+  exists st', h_tty st_boot = Some 5 /\ h_console st_boot = Some 7 /\ link st_boot = Ok st' /\
+    In (EvWrite 5 [104; 105]) (h_trace st') /\
+    go_hal_linkTTYToConsole (to_w [] st_boot) = GOk (to_w (link_calls 5 7 ++ []) st', tt) /\
+    h_sink st' = STTY 5.
+Proof.
+  destruct (link st_boot) as [st'| |] eqn:E; [|vm_compute in E; discriminate..].
+  exists st'. split; [reflexivity|]. split; [reflexivity|]. split; [reflexivity|].
+  split; [vm_compute in E; injection E as <-; vm_compute; tauto|].
+  destruct (C16_link_is_translation [] st_boot st' 5 7 eq_refl eq_refl E) as (A & _ & C).
+  split; [exact A|]. rewrite C. vm_compute. reflexivity.
+Qed.
+
+(** audit: C16_less_is_translation with all five hypotheses (i = 0, j = 1 of the list -128, 0, 127) *)
+Example C16_less_is_translation_real_input :
+  go_device_DriverInfoList_Less (to_w [] init_hal) (to_infos dl) 0 1 = GOk (to_w [] init_hal, true).
+Proof.
+  apply (C16_less_is_translation (to_w [] init_hal) dl 0 1 (mkDriver 1 (-128) None) (mkDriver 2 0 None)).
+  - vm_compute; reflexivity.
+  - reflexivity.
+  - reflexivity.
+  - vm_compute; split; discriminate.
+  - vm_compute; split; discriminate.
+Qed.
+
+(** audit: C16_onDriverInit_is_translation instantiated: console 7 arrives while terminal 5 is active (hypothesis by
+    computation), conclusion used to read off the active devices *)
+Example C16_onDriverInit_is_translation_real_input :
+  exists st' calls,
+    on_driver_init 7 pc st_t = Ok st' /\
+    go_hal_onDriverInit (to_w [] st_t) 0 8 1024 768 bf (impl_of 7 pc) bf (h_logo_off st_t) 0 = GOk (to_w (calls ++ []) st', tt) /\
+    h_console st' = Some 7 /\ h_tty st' = Some 5 /\ h_sink st' = STTY 5.
+Proof.
+  destruct (on_driver_init 7 pc st_t) as [st'| |] eqn:E; [|vm_compute in E; discriminate..].
+  destruct (C16_onDriverInit_is_translation [] st_t st' 7 pc 0 1024 768 bf bf 0 E) as (calls & A & _ & _).
+  exists st', calls. split; [reflexivity|]. split; [exact A|].
+  vm_compute in E. injection E as <-. repeat split; reflexivity.
+Qed.
